@@ -1,6 +1,7 @@
 //! unit: u12b
 //! properties: C12 C17 C10
 //! note: FundedChannel::write and the disconnection it implies: inbound HTLCs the peer has announced but not yet committed (RemoteAnnounced) are not written, the written HTLC count is reduced by their number, and so is the written next_counterparty_htlc_id (the peer retransmits those adds with the same ids after the reload)
+//! trusted: R15 (deep slice + capture): ChannelManager::write: the statement that decides whether the pending events go into the legacy list or into TLV 8, and the condition under which TLV 8 is written; R6: `E.iter().any(|p| P)` / `E.iter().all(|p| P)` is an index loop carrying P verbatim that accumulates both answers, the quantifier written in the source selects the result (macro iter_quantifier!)
 //! trusted: R15 (statement slicing with captures): FundedChannel::write is ~500 lines of field-by-field serialization; the unit extracts, on every run, (a) the loop that counts the dropped inbound HTLCs, (b) the expression written as the inbound HTLC count, (c) the skip test of the loop that writes the inbound HTLCs, and (d) the expression written between next_holder_htlc_id and update_time_counter (the slot of next_counterparty_htlc_id), verbatim, as one function returning the two written numbers and the number of HTLCs not skipped; every other field of the channel is dropped and not claimed; `x.write(writer)?` of the two numbers becomes returning them
 //! trusted: R6: `for htlc in self.context.pending_inbound_htlcs.iter() { B }` becomes an index loop; R16: `if let &P = &e` is written `if let P = e` / a match (Verus has no `&` patterns); env: InboundHTLCState is a 5-variant skeleton without payloads (the source variants carry resolutions), InboundHTLCOutput skeleton {htlc_id, state}; Ctx/FundedChannel self skeletons
 //! trusted: R15 (deep slices): write_chanmon_internal: the filter predicate that counts the pending monitor events with a legacy record and the match of the loop that writes those records, verbatim; the writer counts record tags (u8 writes) in a ghost field; HTLCUpdate::write writes no tag; MonitorEvent is extracted with opaque payloads; every other field of the monitor is dropped and not claimed
@@ -9,6 +10,8 @@
 //! assume: every pending inbound HTLC consumed one counterparty HTLC id: next_counterparty_htlc_id >= pending_inbound_htlcs.len()
 //! trusted: assume_specification for core::cmp::max / core::cmp::min (std definitions): present in every unit so that a change that introduces them is verified instead of being rejected by the tool
 use vstd::prelude::*;
+// R6: the quantifier of `E.iter().any(..)` / `E.iter().all(..)` selects which of the two accumulated answers is the result
+macro_rules! iter_quantifier { (any, $some:expr, $every:expr) => { $some }; (all, $some:expr, $every:expr) => { $every }; }
 verus! {
 use vstd::std_specs::cmp::*;
 use core::cmp;
@@ -405,6 +408,39 @@ use vstd::prelude::*;
     AtomicUsize::new(nodes_count as usize)
 //@with
     AtomicUsize::new(nodes_count as usize - 1)
+//@end
+}
+// ---- ChannelManager::write: pending events go either all into the legacy list or all into the TLV that also carries their completion actions ----
+pub mod manager_events {
+use vstd::prelude::*;
+pub struct Event { pub id: u64 }
+pub struct EventCompletionAction { pub id: u64 }
+pub struct EventsWriter { pub id: u64 }
+//@extract lightning/src/ln/channelmanager.rs :: impl Writeable for ChannelManager :: fn write
+//@capture R15
+    (8, if $tlv:cond { Some(&pending_events_writer) } else { None }, option),
+//@slice R15
+    let events_not_backwards_compatible = events.iter().$q:ident(|$p:any| $body:seq); if events_not_backwards_compatible {
+//@with
+    fn where_pending_events_are_written(events: &Vec<(Event, Option<EventCompletionAction>)>) -> (bool, bool) {
+        // R6: `E.iter().any(|p| P)` / `.all(|p| P)` as an index loop carrying P verbatim
+        let mut __some = false; let mut __every = true; let mut __i: usize = 0;
+        while __i < events.len()
+            invariant __i <= events@.len(), __some == (exists|k: int| 0 <= k < __i && (#[trigger] events@[k]).1 is Some), __every == (forall|k: int| 0 <= k < __i ==> (#[trigger] events@[k]).1 is Some),
+            decreases events@.len() - __i
+        { let $p = &events[__i]; let __b: bool = $body; if __b { __some = true; } else { __every = false; } __i = __i + 1; }
+        let events_not_backwards_compatible = iter_quantifier!($q, __some, __every);
+        (events_not_backwards_compatible, $tlv)
+    }
+//@ret r
+//@ensures P C12 pending-events-are-written-with-their-completion-actions-whenever-any-of-them-has-one-so-no-action-is-lost-across-a-restart
+    // r.0: the legacy list is left empty; r.1: the TLV carrying (event, action) pairs is written
+    r.0 == (exists|k: int| 0 <= k < events@.len() && (#[trigger] events@[k]).1 is Some),
+    r.1 == r.0,
+//@mutant actions_dropped_unless_every_event_has_one
+    let events_not_backwards_compatible = events.iter().any(
+//@with
+    let events_not_backwards_compatible = events.iter().all(
 //@end
 }
 }
